@@ -625,7 +625,8 @@ B_XML = {'t': 'B', 'name': 'unicode-xml'}
 
 ODD = ['\x00', '\x01', '\x1f', '\x7f', '\x80', '\x85', '\xa0', '\xad', '\u0300', '\u0301', '\u0308', '\u20d7', '\u0378', '\u0379',
        '\ue000', '\ufffd', '\ufffe', '\uffff', '\U00010000', '\U0001d49c', '\U0001f600', '\U000e0001', '\U000f0000', '\U0010ffff',
-       '\u212b', '\u2126', '\u1100\u1161', 'e\u0301', 'a\u0308\u0301', '\u4e7e', '\u2028', '\u200b', '\ufb01', '\u00e9', '\u03b1']
+       '\u212b', '\u2126', '\u1100\u1161', 'e\u0301', 'a\u0308\u0301', '\u4e7e', '\u2028', '\u200b', '\ufb01', '\u00e9', '\u03b1',
+       '\ufe0e', '\ufe0f', '\ufe00', '\u200d', '\u200c', '\u2060', '\ufeff', '\u20e3', '\U0001f3fb', '\u034f', '\x0b', '\x0c', '\x1c', '\x1d', '\x1e']
 
 def rand_prot(rng, allow_none=False):
     x = rng.random()
